@@ -170,17 +170,21 @@ func cmdCheck(args []string) {
 		}
 		bad := map[string][]sweepFinding{}
 		for _, f := range fs {
-			bad[f.Func] = append(bad[f.Func], f)
+			k := f.Func + "#sweep.no_shared_state"
+			if f.Kind == "endless_recursion" {
+				k = f.Func + "#sweep.no_endless_recursion"
+			}
+			bad[k] = append(bad[k], f)
 		}
 		all = append(all, &Obligation{Name: "sweep#frame.no_shared_state.all_functions", Func: "sweep", Kind: "sweep", Props: []string{prop},
-			Src: fmt.Sprintf("sweep for writes to package-level variables, ambient state (clock, process-wide random source, environment, files) and concurrency primitives; scope size %d", n),
+			Src: fmt.Sprintf("sweep for writes to package-level variables and long-lived receivers (direct, or through a callee that writes through a parameter), ambient state (clock, process-wide random source, environment, files), concurrency primitives, and String()/Error() methods that format their own receiver; scope size %d", n),
 			Goal: TTrue, Result: "unsat", Solver: "syntactic"})
 		for fn, ff := range bad {
 			var ws []string
 			for _, f := range ff {
 				ws = append(ws, f.Kind+": "+f.What+" ("+f.Pos+")")
 			}
-			all = append(all, &Obligation{Name: fn + "#sweep.no_shared_state", Func: fn, Kind: "sweep", Props: []string{prop},
+			all = append(all, &Obligation{Name: fn, Func: fn[:strings.Index(fn, "#")], Kind: "sweep", Props: []string{prop},
 				Src: strings.Join(ws, "; "), Goal: TFalse, Result: "sat", Solver: "syntactic", Model: strings.Join(ws, "\n")})
 		}
 	}
